@@ -57,7 +57,13 @@ impl Extension {
 
     pub(crate) fn vec_from_document(document: &Document) -> Vec<Extension> {
         let mut extensions = Vec::new();
-        for item in document.root_element().namespaces() {
+        let root = document.root_element();
+        for item in root.namespaces() {
+            // The namespace of the root element is the E57 namespace itself and no extension,
+            // even if the document binds it to a prefix instead of using it as default namespace
+            if Some(item.uri()) == root.tag_name().namespace() {
+                continue;
+            }
             if let Some(name) = item.name() {
                 extensions.push(Extension {
                     namespace: name.to_string(),
